@@ -135,6 +135,7 @@
 #include <bxdecay0/Tl208.h>
 #include <bxdecay0/U234.h>
 #include <bxdecay0/U238.h>
+#include <bxdecay0/W184low.h>
 #include <bxdecay0/Xe128low.h>
 #include <bxdecay0/Xe129m.h>
 #include <bxdecay0/Xe130low.h>
@@ -2351,6 +2352,9 @@ namespace bxdecay0 {
       }
       if (name_starts_with(chnuclide_, "W186")) {
         Os186low(prng_, event_, bb_params_.levelE);
+      }
+      if (name_starts_with(chnuclide_, "Os184")) {
+        W184low(prng_, event_, bb_params_.levelE);
       }
       if (name_starts_with(chnuclide_, "Pt190")) {
         Os190low(prng_, event_, bb_params_.levelE);
